@@ -216,6 +216,10 @@ pub(crate) fn c03_erased_ctxt_boxed_frame() {
 /// Every forwarding context - &C, Option<C>, Box<C>, Arc<C> and dyn ErasedCtxt - dispatches open_root, open_push and
 /// open_disabled to the SAME method of the inner context, with the same properties ("a disabled frame adds
 /// nothing" must not become a push on the erased path the shared runtime uses).
+/// NOT covered on purpose: `emit::runtime::AssertInternal<C>` (core/src/runtime.rs:419) has no `open_disabled` member,
+/// so it falls back to the trait default `open_push(Empty)` on the WRAPPER: adding it as a sixth path makes this
+/// harness fail on the unchanged tree (opened == 2, p == None) - reported as a finding, repair in
+/// findings/fix_assert_internal_open_disabled.diff.
 #[cfg_attr(kani, kani::proof)]
 #[cfg_attr(kani, kani::unwind(6))]
 pub(crate) fn c03_open_dispatch_contract() {
@@ -223,7 +227,7 @@ pub(crate) fn c03_open_dispatch_contract() {
     let kind: u8 = kani::any();
     kani::assume(kind >= 1 && kind <= 3);
     let via: u8 = kani::any();
-    kani::assume(via <= 3);
+    kani::assume(via <= 4);
     let c = KindCtxt::new();
     let props = [("p", v)];
     fn open<C: Ctxt>(c: C, kind: u8, props: &[(&'static str, u64); 1]) {
@@ -244,9 +248,13 @@ pub(crate) fn c03_open_dispatch_contract() {
             let o = Some(&c);
             open(&o, kind, &props)
         }
-        _ => {
+        3 => {
             let b = Box::new(&c);
             open(&b, kind, &props)
+        }
+        _ => {
+            let a = std::sync::Arc::new(&c);
+            open(a.clone(), kind, &props)
         }
     }
     assert!(c.opened.get() == kind);
